@@ -207,3 +207,12 @@ Definition run_roundtrip (g : dag) (b : bstate) (tp : list revid) (keep_tags : b
 
 (* WorkingTree.set_parent_ids alone *)
 Definition run_filter (g : dag) (ps : list revid) : obs := olist onat (filter_parents g ps).
+
+(* the same in a bound branch (heavyweight checkout): commit(local=True) does not
+   touch the master [mb] (which may be at or behind the branch), then
+   uncommit(local=loc) *)
+Definition run_roundtrip_bound (g : dag) (b : bstate) (tp : list revid) (keep_tags : bool)
+                               (mb : bstate) (loc : bool) : obs :=
+  let t := mkT tp [] in
+  oresult (uncommit (commit_graph g t) (commit_branch g b) (Some (commit_tree g t)) (Some mb)
+                    (revno b) keep_tags loc).
